@@ -3459,10 +3459,12 @@ impl GatheringTask for StopTask {
             ServerState::Stopping,
             "StopTask::on_finish must leave the master in the Stopping state"
         );
-        client.finish_ok(format!(
-            "Successfully closed {} workers, {} errors, stopping the main process...",
-            self.gatherer.ok, self.gatherer.errors
-        ));
+        if !(timed_out && self.hardness) {
+            client.finish_ok(format!(
+                "Successfully closed {} workers, {} errors, stopping the main process...",
+                self.gatherer.ok, self.gatherer.errors
+            ));
+        }
     }
 }
 
